@@ -2,7 +2,7 @@ import Secp.Gen.Drivers
 import Secp.Model.Bip32
 import Secp.Proofs.DriversChild
 import Secp.Proofs.DriversAdaptor
-import Secp.Proofs.DriversFront
+import Secp.Proofs.FrontBip
 /-
   Proofs/DriversDerive — ExtendedKey.DeriveWithIL and ExtendedKey.Derive (extended.go): the regenerated
   `for _, i := range path` loops equal the model `deriveWithIL`.
@@ -75,7 +75,7 @@ theorem derive_loop_regenerated (O : Oracles) (k : Bytes × Nat × Bytes × Nat 
     have hi : i < 2^32 := hp i (List.mem_cons_self ..)
     have hrest : ∀ j ∈ rest, j < 2^32 := fun j hj => hp j (List.mem_cons_of_mem _ hj)
     unfold Secp.Gen.Drivers.deriveGen_loop deriveWithIL
-    rw [Secp.Proofs.DriversFront.child_front, childWithIL_gen O e i hd hi (hfp _)]
+    rw [Secp.Proofs.FrontBip.child_front, childWithIL_gen O e i hd hi (hfp _)]
     cases hc : childWithIL O e i with
     | error err => rfl
     | ok r =>
